@@ -22,6 +22,13 @@ echo "suite_build_exit=$B" >> $LOG
 if [ $B -eq 0 ]; then
   timeout 1200 $WT/_build/test/boost_mqtt5-tests --report_level=short --log_level=error > $WT/suite.out 2>&1; S=$?
   tail -6 $WT/suite.out | cut -c1-200 >> $LOG; echo "suite_exit=$S" >> $LOG
+  if [ $S -ne 0 ]; then
+    # timing-sensitive cases can fail when the machine is loaded: name them and run the suite once more
+    grep -o 'error: in "[^"]*"' $WT/suite.out | sort | uniq -c >> $LOG
+    timeout 1200 $WT/_build/test/boost_mqtt5-tests --report_level=short --log_level=error > $WT/suite2.out 2>&1; S=$?
+    echo "== second run" >> $LOG; tail -6 $WT/suite2.out | cut -c1-200 >> $LOG; echo "suite_exit_second_run=$S" >> $LOG
+    grep -o 'error: in "[^"]*"' $WT/suite2.out | sort | uniq -c >> $LOG
+  fi
 else
   tail -20 $WT/build.log | cut -c1-300 >> $LOG; S=99
 fi
